@@ -105,6 +105,35 @@ def run(tier, seed, replay=None):
                                    profile=prof, why="parsing the printed text does not give back the value"))
             if tg.canon(ty, mb) != exp and not ties and a == m:
                 model_rt_bad.append(dict(type=ty, value=v, model_parsed=mb, expected=exp))
+        # ---- the round trip must not depend on what was parsed BEFORE: in ONE process, each printed text is parsed again
+        # right after a few damaged variants of it (and of its neighbours) have been offered to the same entry point
+        hist_cmds, hist_idx = [], []
+        pool = [k for k in idx2]
+        if not replay:
+            pool = pool[:: max(1, len(pool) // (1500 if tier == "quick" else 8000))]
+        for k in pool:
+            ty = vals[k][0]
+            txt = tg.unhex(ip[k][2:])
+            for _ in range(0 if replay and not r.get("after_garbage") else 3):
+                hist_cmds.append("PARSE %s %s" % (ty, tg.hexs(tg.mutate(rng, txt))))
+                hist_idx.append(None)
+            for g in (r.get("after_garbage") or []) if replay else []:
+                hist_cmds.append("PARSE %s %s" % (ty, g))
+                hist_idx.append(None)
+            hist_cmds.append("PARSE %s %s" % (ty, ip[k][2:]))
+            hist_idx.append(k)
+        ha = tg.run_side("impl", hist_cmds, jobs=1, profile=prof)
+        for j, (k, a2) in enumerate(zip(hist_idx, ha)):
+            if k is None:
+                continue
+            evals += 1
+            ty, v = vals[k]
+            if tg.canon(ty, a2) != tg.canon(ty, back[k][0]):
+                garbage = [c.split(" ")[2] for c in hist_cmds[max(0, j - 3):j] if True]
+                rt_bad.append(dict(type=ty, value=v, text=tg.unhex(ip[k][2:]), parsed=a2, expected=back[k][0], profile=prof,
+                                   after_garbage=garbage,
+                                   why="the printed text parses back to the value on its own, but not after other (rejected) inputs "
+                                       "were parsed by the same thread"))
     if tier == "thorough" and not replay:
         smp = rng.sample(range(len(vals)), min(400, len(vals)))
         texts = tg.run_side("model", ["PRINT %s %s" % vals[k] for k in smp])
